@@ -244,6 +244,8 @@ def outcomes_equal(a, b):
         if a[1] is not None and b[1] is not None and a[1] != b[1]:
             return False
         return a[2] is None or b[2] is None or a[2] == b[2]
+    if a[0] == "exc":
+        return a[1:4] == b[1:4]
     return a == b
 
 
@@ -388,20 +390,30 @@ def translate(run):
 
 def probe_modes(run):
     """which variant of detect_spec_version the code matches (run-time variant detection)"""
+    v4 = "c9bd2a4e-2b1c-4d3e-8f00-0123456789ab"
     r = common.run_impl("c14_impl", [{"op": "detect", "data": {"type": "bundle", "id": "bundle--x"}},
                                      {"op": "detect", "data": {}},
-                                     {"op": "registry"}], procs=1)
+                                     {"op": "registry"},
+                                     {"op": "idcheck", "kind": "id", "type": "identity", "spec_version": "2.1", "interop": False,
+                                      "value": "identity--{%s}" % v4},
+                                     {"op": "idcheck", "kind": "id", "type": "identity", "spec_version": "2.1", "interop": True,
+                                      "value": "identity--%s\n" % v4}], procs=1)
     bundle_default = r[0] == ["V", "2.1"]
     notype_parse = r[1] == ["ParseError"]
     if not bundle_default and r[0] != ["KeyError", "objects"]:
         run.notes.append("detect_spec_version on a bundle without objects gives %r (neither variant)" % (r[0],))
     if not notype_parse and r[1] != ["KeyError", "type"]:
         run.notes.append("detect_spec_version on {} gives %r (neither variant)" % (r[1],))
-    return {"bundle_default": bundle_default, "notype_parse": notype_parse}, r[2]
+    return {"bundle_default": bundle_default, "notype_parse": notype_parse,
+            "canonical_text": r[3] != ["ok"], "regex_end_Z": r[4] != ["ok"]}, r[2]
 
 
 def coq_mode(md):
     return "(mkMode %s %s)" % (common.coq_bool(md["bundle_default"]), common.coq_bool(md["notype_parse"]))
+
+
+def coq_idmode(md):
+    return "(mkIdMode %s %s)" % (common.coq_bool(md["canonical_text"]), common.coq_bool(md["regex_end_Z"]))
 
 
 def coq_reg(reg):
@@ -509,6 +521,10 @@ def check(run):
                         c2 = dict(cfg)
                         c2["wrap"] = w
                         plan.append((pi, e, c2))
+                if e in FS_SRC_ENTRIES and p["variant"] in ("witness", "base", "zero-uuid", "v1-uuid") and "allow_custom" not in cfg:
+                    c2 = dict(cfg)
+                    c2["wrap"] = "bundlefile"
+                    plan.append((pi, e, c2))
                 if e in FS_SINK_ENTRIES and p["variant"] in ("witness", "zero-uuid") and "allow_custom" not in cfg:
                     c2 = dict(cfg)
                     c2["wrap"] = "list"
@@ -538,20 +554,33 @@ def check(run):
         direct = [["parse", ac, io_, v] for ac, io_, v in DIRECT_GRID]
         if p["kind"] == "observable":
             direct += [["parse_observable", ac, io_, v] for ac, io_, v in DIRECT_GRID]
-        cases.append({"op": "probe", "data": p["data"], "entries": [[e, cfg] for e, cfg in by_probe[pi]], "direct": direct})
+        case = {"op": "probe", "data": p["data"], "entries": [[e, cfg] for e, cfg in by_probe[pi]], "direct": direct}
+        if any(cfg.get("wrap") == "bundlefile" for _, cfg in by_probe[pi]):
+            case["direct_bundle"] = [[ac, io_, v] for ac, io_, v in DIRECT_GRID]
+        cases.append(case)
     impl = common.run_impl("c14_impl", cases)
 
     dis, n_cmp, n_model_unknown = [], 0, 0
     for pi, c, r in zip(order, cases, impl):
         p = probes[pi]
         direct = {(fn, ac, io_, v): o for (fn, ac, io_, v), o in zip(map(tuple, c["direct"]), r["direct"])}
+        for (ac, io_, v), o in zip(map(tuple, c.get("direct_bundle", [])), r.get("direct_bundle", [])):
+            direct[("bundlefile", ac, io_, v)] = o
         distinct = {json.dumps(o) for (fn, *_), o in direct.items() if fn == "parse"}
         nontrivial = len(distinct) > 1
         for (e, cfg), out, own in zip(by_probe[pi], r["entries"], r["own"]):
             run.count({"e": e, "cfg": cfg, "d": p["data"]}, nontrivial=nontrivial)
             v = cfg.get("version")
             fn_own, ac_own, io_own = own
+            if cfg.get("wrap") == "bundlefile":
+                fn_own = "bundlefile"
             # oracle: the property itself (a version is named)
+            if v is not None and cfg.get("wrap") != "bundlefile" and out[0] in ("ok", "exc") and out[-1] is not None \
+                    and v not in out[-1]:
+                run.violations.append(Violation(
+                    "%s(<%s %s>, %s) -> %s: the content was interpreted as version %s, not the version named"
+                    % (e, p["cid"], p["variant"], ", ".join("%s=%r" % kv for kv in sorted(cfg.items())), short(out), out[-1]),
+                    {"kind": "entry", "entry": e, "cfg": cfg, "data": p["data"]}, finding=None))
             if v is not None:
                 want = direct[(fn_own, ac_own, io_own, v)]
                 if not outcomes_equal(out, want):
@@ -573,6 +602,8 @@ def check(run):
                 ok_any, unknown = False, False
                 for fn, ac, io_, vv in triples:
                     f = "parse_observable" if fn == "parsing.parse_observable" else "parse"
+                    if cfg.get("wrap") == "bundlefile":
+                        f = "bundlefile"
                     if ac[0] == "?":
                         unknown = True
                     a = ac_own if ac[0] == "?" else truthy(ac[1])
@@ -672,7 +703,8 @@ def correspond_models(run, md, reg, probes):
     n = 4000 if run.tier == "thorough" else 700
     dicts = gen_detect_dicts(run, reg, n)
     obs21 = common.coq_list([common.coq_ustr(t) for t in reg["2.1/observables"]])
-    header = HEADER + "Definition md := %s.\nDefinition obs21 := %s.\nDefinition R := %s.\n" % (coq_mode(md), obs21, coq_reg(reg))
+    header = HEADER + "Definition md := %s.\nDefinition im := %s.\nDefinition obs21 := %s.\nDefinition R := %s.\n" % (
+        coq_mode(md), coq_idmode(md), obs21, coq_reg(reg))
     # detect
     cases = [{"op": "detect", "data": d} for d in dicts]
     impl = common.run_impl("c14_impl", cases, procs=4)
@@ -719,6 +751,8 @@ def correspond_models(run, md, reg, probes):
     for c, i, m in zip(pcases, impl, model):
         si = show_pick_impl(i)
         run.count({"pick": c}, nontrivial=m.startswith("class"))
+        if m == "detect ParseError":
+            m = "ParseError"        # the same exception class, raised inside detect_spec_version (variant notype_parse)
         if m == "OUTSIDE" or si == "OUTSIDE":
             continue
         if si != m:
@@ -739,7 +773,7 @@ def correspond_models(run, md, reg, probes):
         if kind == "ref" and sv == "2.2":
             sv = "2.1"      # ReferenceProperty consults the registry of its spec_version after the id check
         icases.append({"op": "idcheck", "kind": kind, "type": "identity", "spec_version": sv, "interop": io_, "value": s})
-        terms.append("show_vres (validate_id %s %s %s %s)" % (common.coq_ustr(s), common.coq_ustr(sv),
+        terms.append("show_vres (validate_id im %s %s %s %s)" % (common.coq_ustr(s), common.coq_ustr(sv),
                                                               common.coq_ustr("identity--") if kind == "id" else "[]",
                                                               common.coq_bool(io_)))
     impl = common.run_impl("c14_impl", icases, procs=4)
@@ -764,15 +798,23 @@ def replay(payload):
     if r.get("kind") == "entry":
         e, cfg, d = r["entry"], r["cfg"], r["data"]
         direct = [["parse", ac, io_, v] for ac, io_, v in DIRECT_GRID] + [["parse_observable", ac, io_, v] for ac, io_, v in DIRECT_GRID]
-        res = common.run_impl("c14_impl", [{"op": "probe", "data": d, "entries": [[e, cfg]], "direct": direct}], procs=1)[0]
+        res = common.run_impl("c14_impl", [{"op": "probe", "data": d, "entries": [[e, cfg]], "direct": direct,
+                                            "direct_bundle": [list(x) for x in DIRECT_GRID]}], procs=1)[0]
         out, own = res["entries"][0], res["own"][0]
         table = {tuple(k): o for k, o in zip(direct, res["direct"])}
+        for k, o in zip(DIRECT_GRID, res["direct_bundle"]):
+            table[("bundlefile",) + tuple(k)] = o
         v = cfg.get("version")
-        want = table[(own[0], own[1], own[2], v)]
+        fn = "bundlefile" if cfg.get("wrap") == "bundlefile" else own[0]
+        want = table[(fn, own[1], own[2], v)]
         print("replay %s(%s) with %s" % (e, json.dumps(d)[:200], cfg))
-        print("  entry point : %s" % short(out))
-        print("  direct %s(.., allow_custom=%s, interoperability=%s, version=%r): %s" % (own[0], own[1], own[2], v, short(want)))
-        if v is not None and not outcomes_equal(out, want):
+        print("  entry point : %s%s" % (short(out), "" if out[-1] is None or out[0] not in ("ok", "exc") else "  (class registered for %s)" % out[-1]))
+        print("  direct %s(.., allow_custom=%s, interoperability=%s, version=%r): %s" % (fn, own[1], own[2], v, short(want)))
+        bad = v is not None and not outcomes_equal(out, want)
+        if v is not None and fn != "bundlefile" and out[0] in ("ok", "exc") and out[-1] is not None and v not in out[-1]:
+            print("  the content was interpreted as version %s, not the version named (%s)" % (out[-1], v))
+            bad = True
+        if bad:
             print("VIOLATION property=C14 replay=(given)")
             return 1
         print("no violation on this input")
